@@ -175,7 +175,7 @@ impl PersisterTask {
             match request {
                 PersisterTaskCommand::WriteRequest(batch_to_write) => {
                     #[cfg(iggy_verif)]
-                    crate::verif::point("persister.write", batch_to_write.get_size_bytes().as_bytes_u64()).await;
+                    crate::verif::point("persister.write", batch_to_write.length.as_bytes_u64()).await;
                     match Self::write_with_retries(
                         &mut file,
                         &file_path,
